@@ -58,3 +58,22 @@ def tokOK (s : Sys) : Bool :=
     | some w => !(w.runState == 1 || w.runState == 2) || pendingAtB s w)
 
 end WorkflowModel.Engine
+
+namespace WorkflowModel.Engine
+open WorkflowModel RS
+
+/-- the persisted record of the run is finished -/
+def finHeadB (x : RunS) : Bool :=
+  match x.hist.head? with
+  | some h => h.runState == 4 || h.runState == 5 || h.runState == 6 || h.runState == 7
+  | none => false
+
+/-- executable mirror of `OneUnf`: of two runs of one foreign ID the earlier created one is finished -/
+def oneUnfB (s : Sys) : Bool :=
+  (List.range s.runs.length).all (fun i => (List.range s.runs.length).all (fun j =>
+    !(decide (i < j)) ||
+      match s.runs[i]?, s.runs[j]? with
+      | some x, some y => x.fid != y.fid || finHeadB x
+      | _, _ => true))
+
+end WorkflowModel.Engine
